@@ -20,16 +20,32 @@ import (
 func init() { props["C11"] = runC11 }
 
 type c11User struct {
-	name  string
-	dir   string
-	repo  repository.TestedRepo
-	rc    *cache.RepoCache
-	idenN int
-	acts  []map[string]any // the session as the model sees it
-	obs   []map[string]any // after each action: ids in the excerpt map / in the index
+	name   string
+	dir    string
+	repo   repository.TestedRepo
+	rc     *cache.RepoCache
+	idenN  int
+	staged map[entity.Id]bool // bugs holding operations that are not committed yet
+	acts   []map[string]any   // the session as the model sees it
+	obs    []map[string]any   // after each action: ids in the excerpt map / in the index
 }
 
-// observe records which bug ids the live cache lists and which the index finds.
+// opKinds: "c" for an operation that makes a comment (create, add-comment), "o" for any other
+func opKinds[T any](ops []T) []string {
+	out := []string{}
+	for _, op := range ops {
+		switch any(op).(type) {
+		case *bug.CreateOperation, *bug.AddCommentOperation:
+			out = append(out, "c")
+		default:
+			out = append(out, "o")
+		}
+	}
+	return out
+}
+
+// observe records which bug ids the live cache lists and which the index finds, and for every
+// listed bug the number of comments its excerpt shows and the number of operations it resolves to.
 func (u *c11User) observe() {
 	ids := idStrs(u.rc.Bugs().AllIds())
 	sort.Strings(ids)
@@ -40,11 +56,25 @@ func (u *c11User) observe() {
 		idx = idStrs(res)
 	}
 	sort.Strings(idx)
-	u.obs = append(u.obs, map[string]any{"excerpts": ids, "index": idx})
+	bugs := map[string]any{}
+	for _, id := range ids {
+		ex, err1 := u.rc.Bugs().ResolveExcerpt(entity.Id(id))
+		bc, err2 := u.rc.Bugs().Resolve(entity.Id(id))
+		if err1 == nil && err2 == nil {
+			bugs[id] = []int{ex.LenComments, len(bc.Snapshot().Operations)}
+		}
+	}
+	u.obs = append(u.obs, map[string]any{"excerpts": ids, "index": idx, "bugs": bugs})
 }
 
 func (u *c11User) act(a, id string) {
-	u.acts = append(u.acts, map[string]any{"a": a, "id": id, "v": fmt.Sprintf("v%d", len(u.acts))})
+	m := map[string]any{"a": a, "id": id, "v": fmt.Sprintf("v%d", len(u.acts))}
+	if id != "" && a != "remove" {
+		if bc, err := u.rc.Bugs().Resolve(entity.Id(id)); err == nil {
+			m["ops"] = opKinds(bc.Snapshot().Operations)
+		}
+	}
+	u.acts = append(u.acts, m)
 	u.observe()
 }
 
@@ -55,19 +85,21 @@ func (u *c11User) pull() error {
 	}
 	var firstErr error
 	merged := []string{}
+	mergedOps := map[string]any{}
 	for res := range u.rc.MergeAll("origin") {
 		if res.Err != nil && firstErr == nil {
 			firstErr = res.Err
 		}
-		isBug := false
+		var asBug *bug.Bug
 		if res.Entity != nil {
-			_, isBug = res.Entity.(*bug.Bug)
+			asBug, _ = res.Entity.(*bug.Bug)
 		}
-		if isBug && (res.Status == entity.MergeStatusNew || res.Status == entity.MergeStatusUpdated) {
+		if asBug != nil && (res.Status == entity.MergeStatusNew || res.Status == entity.MergeStatusUpdated) {
 			merged = append(merged, string(res.Id))
+			mergedOps[string(res.Id)] = opKinds(asBug.Operations())
 		}
 	}
-	u.acts = append(u.acts, map[string]any{"a": "pull", "ids": merged, "v": fmt.Sprintf("v%d", len(u.acts))})
+	u.acts = append(u.acts, map[string]any{"a": "pull", "ids": merged, "opsOf": mergedOps, "v": fmt.Sprintf("v%d", len(u.acts))})
 	u.observe()
 	return firstErr
 }
@@ -274,7 +306,41 @@ func runC11(c *runCtx) {
 				}
 				return b
 			}
-			switch x := r.intn(20); {
+			switch x := r.intn(22); {
+			case x == 20:
+				// an edit that stays staged (the web UI's and the bridges' way: several edits, one commit)
+				if b := editable(); b != nil {
+					if r.chance(1, 2) {
+						b.AddComment("staged comment " + randHexId(r, 4))
+					} else {
+						tokN++
+						tok := fmt.Sprintf("tok%dq%s", tokN, randHexId(r, 6))
+						tokens = append(tokens, tok)
+						b.SetTitle("staged title zz9 " + tok)
+					}
+					if u.staged == nil {
+						u.staged = map[entity.Id]bool{}
+					}
+					u.staged[b.Id()] = true
+					act = "stage(" + b.Id().Human() + ")"
+					u.act("stage", string(b.Id()))
+				}
+			case x == 21:
+				// everything staged is committed
+				n := 0
+				for id := range u.staged {
+					if b, err := u.rc.Bugs().Resolve(id); err == nil {
+						if err := b.CommitAsNeeded(); err != nil {
+							panic(err)
+						}
+						n++
+						u.act("commit", string(id))
+					}
+				}
+				u.staged = nil
+				if n > 0 {
+					act = fmt.Sprintf("commit-staged(%d)", n)
+				}
 			case x < 4 || len(ids) == 0 && x < 12:
 				tokN++
 				tok := fmt.Sprintf("tok%dq%s", tokN, randHexId(r, 6))
@@ -386,15 +452,28 @@ func runC11(c *runCtx) {
 				}
 				u.repo.Close()
 				u.open()
+				if len(u.staged) > 0 {
+					c.count("reopen-with-abandoned-staging")
+				}
+				u.staged = nil
 				act = "reopen"
 				u.act("reopen", "")
 			}
 			if act == "" {
 				continue
 			}
+			for id := range u.staged {
+				if b, err := u.rc.Bugs().Resolve(id); err != nil || !b.NeedCommit() {
+					delete(u.staged, id)
+				}
+			}
 			log = append(log, u.name+":"+act)
 			c.context(strings.Join(log, " "))
 			c.count("action=" + strings.Split(act, "(")[0])
+			if len(u.staged) > 0 {
+				c.count("not-quiescent(staged operations)")
+				continue
+			}
 			// quiescent point: the live cache must serve what a rebuilt cache serves
 			live := served(u.rc, tokens)
 			re, err := rebuilt(u, tokens)
